@@ -100,8 +100,8 @@ def tagged_payloads(rnd, specs, names):
         if not isinstance(n, yaml.MappingNode):
             continue
         n.tag = '!' + nm
-        out += [n, loadcase.Q([encode.copy_tree(n)]), loadcase.M([(loadcase.S('w'), encode.copy_tree(n))]),
-                loadcase.M([(loadcase.S('w'), loadcase.Q([encode.copy_tree(n)]))])]
+        out += [(nm, x) for x in (n, loadcase.Q([encode.copy_tree(n)]), loadcase.M([(loadcase.S('w'), encode.copy_tree(n))]),
+                                  loadcase.M([(loadcase.S('w'), loadcase.Q([encode.copy_tree(n)]))]))]
     return out
 
 
@@ -139,7 +139,7 @@ def directed(rnd, specs, names, counter):
     if not payloads:
         return
     # (1) top-level Any: no constructor may run at all
-    for p in payloads:
+    for _nm, p in payloads:
         counter[0] += 1
         key = 'k%d' % counter[0]
         yield 'any', loadcase.S('x'), 'base:' + key
@@ -158,8 +158,10 @@ def directed(rnd, specs, names, counter):
         if s.get('extra'):
             spots += ['extra_key', '_yatiml_extra']
         spots += [p['name'] for p in s['params'] if p.get('type') in (None, 'any')]
+        # prefer payloads of a class other than the host's, so that a stray construction cannot be mistaken for the host's
+        mine = [p for nm, p in payloads if nm != s['name']] or [p for _nm, p in payloads]
         for spot in spots:
-            for p in payloads[:4]:
+            for p in mine[:4]:
                 counter[0] += 1
                 key = 'k%d' % counter[0]
                 b = encode.copy_tree(base)
